@@ -323,6 +323,9 @@ func (f *c05Fleet) exec(oi int, op C05Op) error {
 		if rn := time.Now(); rn.After(f.now) {
 			f.now = rn
 		}
+		if !WaitCleanersIdle(20 * time.Second) {
+			return fmt.Errorf("%s: harness: a background cleaner run launched at start-up did not finish within 20 s\n%s", where, goroutinesOf("cleaner"))
+		}
 		_ = nd.S.VerifCleaner().RunOnce(context.Background(), f.now)
 	case "fault":
 		nd.H.SetPlan(op.FKind, op.Faults)
